@@ -418,7 +418,10 @@ class step_budget:
 
     def __enter__(self):
         ops = _env()["ops"]
-        self.orig = ops.ordered_map_valid_indexed_partial
+        cur = ops.ordered_map_valid_indexed_partial
+        # a wrapper left behind by a case that was interrupted between __enter__ and __exit__ (the per-case alarm) must not be
+        # wrapped again: its exhausted counter would turn every later case of this worker into a `hang`
+        self.orig = getattr(cur, "_verif_orig", cur)
         state = {"n": 0}
         orig, budget = self.orig, self.budget
 
@@ -427,6 +430,7 @@ class step_budget:
             if state["n"] > budget:
                 raise StepBudgetExceeded()
             return orig(*a)
+        counted._verif_orig = orig
         ops.ordered_map_valid_indexed_partial = counted
 
     def __exit__(self, *a):
@@ -736,3 +740,8 @@ if sys.argv and sys.argv[0].endswith("worker.py"):
         _warm_up()
     except Exception:   # noqa
         pass
+
+
+# the TRANSLATED kernels (Gen/Kernels.lean) are executed against the real kernels on cases derived from the ones above
+from checks.harness import genkernels  # noqa: E402
+genkernels.install(globals(), "C04")
